@@ -293,6 +293,36 @@ def check_C12(tier, seed, t0):
         trace_module="TraceArgs.tla", trace_cfg="TraceArgs.cfg", driver_of=lambda d: "drv_args", extra_cov=dict(exhaustive=True))
 
 
+def kernel_descs(mode, tier, seed):
+    out = []
+    for ty in ("d", "f", "l"):
+        for i in range(n_of(tier, 2, 8)):
+            out.append("mode=%s;kty=%s;count=%d;nmax=%d;seed=%d" % (mode, ty, n_of(tier, 66, 330), 64 if mode == "eig" else 48, seed * 100 + i))
+    return out
+
+
+def check_C08(tier, seed, t0):
+    own = ["ResultBeforeComputeIsLogicError", "QrFinite", "QOrthogonal", "QRequalsShiftedH", "QtHQisSimilarity", "ApplyMultipliesByQ", "RUpperTriangular",
+           "QtHQHessenberg", "QtHQTridiagonalSymmetric", "FirstColumnParallel", "ExactOnTrivialRotations", "UnknownRow"]
+    return ir_flow("C08", tier, seed, kernel_descs("qr", tier, seed), own, [], COMMON_ASSUME[:1] + [
+        "numerical accuracy of the kernels is MEASURED on generated families (random, integer, graded, deflated, tiny/huge, Taylor-branch ratios, "
+        "Jordan, companion, zero, repeated; shifts 0 / random / exact eigenvalue; 3 scalar types) and judged by the spec's formulas: sampling, not proof",
+        "decided exactly: logic_error protocol, exact zero structure of R and Q'HQ, bit-exact identities on generalized-permutation inputs"], t0,
+        trace_module="TraceKernel.tla", trace_cfg="TraceKernel.cfg", driver_of=lambda d: "drv_kernels")
+
+
+def check_C09(tier, seed, t0):
+    own = ["EigFinite", "BackwardStable", "OrthogonalOrUnitNorm", "QuasiTriangular", "BlocksStandardised", "ExactConjugatePairing",
+           "FailureIsRuntimeError", "DecompositionFailed", "UnknownRow"]
+    return ir_flow("C09", tier, seed, kernel_descs("eig", tier, seed), own, [], COMMON_ASSUME[:1] + [
+        "backward stability is MEASURED on generated families (sizes 2..64, 11 entry patterns incl. zero matrix, defective and repeated eigenvalues, "
+        "scalings 1e-100/1e100, 3 scalar types) and judged by the spec: sampling, not proof",
+        "decided exactly from the returned bits: zero imaginary parts, adjacent exact conjugates with the positive part first, quasi-triangular T, "
+        "standardised 2x2 blocks; the same conventions are the contract IRSolver's general variant relies on (checked at every Retrieve of C02 runs through the shift-loop guards)",
+        "the iteration-limit exception path is monitored (a failure must be a runtime_error) but no generated input reaches it"], t0,
+        trace_module="TraceKernel.tla", trace_cfg="TraceKernel.cfg", driver_of=lambda d: "drv_kernels")
+
+
 def check_C10(tier, seed, t0):
     parts = 8
     descs = ["mode=exact;stride4=%d;part=%d;parts=%d" % (41 if tier == "quick" else 3, i, parts) for i in range(parts)]
@@ -361,7 +391,7 @@ def check_C14(tier, seed, t0):
         level="fault_enumeration" if False else "model_checking")
 
 
-CHECKS = {"C10": check_C10, "C12": check_C12, "C03": check_C03, "C04": check_C04, "C06": check_C06, "C14": check_C14, "C18": check_C18, "C19": check_C19, "C05": check_C05, "C01": check_C01, "C02": check_C02, "C07": check_C07, "C13": check_C13}
+CHECKS = {"C08": check_C08, "C09": check_C09, "C10": check_C10, "C12": check_C12, "C03": check_C03, "C04": check_C04, "C06": check_C06, "C14": check_C14, "C18": check_C18, "C19": check_C19, "C05": check_C05, "C01": check_C01, "C02": check_C02, "C07": check_C07, "C13": check_C13}
 
 
 def main():
